@@ -21,6 +21,15 @@ type c03Case struct {
 	MatRules  [][]string          `json:"material_rules"`
 	ProdRules [][]string          `json:"product_rules"`
 	Links     map[string]hx.RLink `json:"links"` // "item" is the item's own link
+	Before    []c03Extra          `json:"before,omitempty"` // other items verified in the same call, in front of the item
+	After     []c03Extra          `json:"after,omitempty"`  // ... and behind it
+}
+
+// c03Extra is another step of the same call (its link is Links[Name]).
+type c03Extra struct {
+	Name      string     `json:"name"`
+	MatRules  [][]string `json:"material_rules"`
+	ProdRules [][]string `json:"product_rules"`
 }
 
 func toMetadata(name string, l hx.RLink, wrapper string) (intoto.Metadata, error) {
@@ -51,17 +60,43 @@ func implVerifyItem(c c03Case) (err error, panicked any) {
 		md[name] = m
 	}
 	sci := intoto.SupplyChainItem{Name: "item", ExpectedMaterials: c.MatRules, ExpectedProducts: c.ProdRules}
-	var item any
-	if c.ItemKind == "inspection" {
-		item = intoto.Inspection{Type: "inspection", SupplyChainItem: sci}
-	} else {
-		item = intoto.Step{Type: "step", SupplyChainItem: sci}
+	mk := func(sci intoto.SupplyChainItem) any {
+		if c.ItemKind == "inspection" {
+			return intoto.Inspection{Type: "inspection", SupplyChainItem: sci}
+		}
+		return intoto.Step{Type: "step", SupplyChainItem: sci}
 	}
-	return intoto.VerifyArtifacts([]any{item}, md), nil
+	var items []any
+	for _, e := range c.Before {
+		items = append(items, mk(intoto.SupplyChainItem{Name: e.Name, ExpectedMaterials: e.MatRules, ExpectedProducts: e.ProdRules}))
+	}
+	items = append(items, mk(sci))
+	for _, e := range c.After {
+		items = append(items, mk(intoto.SupplyChainItem{Name: e.Name, ExpectedMaterials: e.MatRules, ExpectedProducts: e.ProdRules}))
+	}
+	return intoto.VerifyArtifacts(items, md), nil
+}
+
+// c03RefAll: every item of the call is verified on its own, in order; the first failure decides.
+func c03RefAll(c c03Case) error {
+	for _, e := range c.Before {
+		if err := hx.RefVerifyItem(e.Name, e.MatRules, e.ProdRules, c.Links); err != nil {
+			return err
+		}
+	}
+	if err := hx.RefVerifyItem("item", c.MatRules, c.ProdRules, c.Links); err != nil {
+		return err
+	}
+	for _, e := range c.After {
+		if err := hx.RefVerifyItem(e.Name, e.MatRules, e.ProdRules, c.Links); err != nil {
+			return err
+		}
+	}
+	return nil
 }
 
 func c03Verdict(c c03Case) (refErr error, implErr error, panicked any) {
-	refErr = hx.RefVerifyItem("item", c.MatRules, c.ProdRules, c.Links)
+	refErr = c03RefAll(c)
 	implErr, panicked = implVerifyItem(c)
 	return
 }
@@ -120,6 +155,9 @@ func c03Run(c c03Case, r *hx.Rec) error {
 	}
 	if c03Interesting(c) {
 		r.Nontrivial()
+	}
+	if len(c.Before)+len(c.After) > 0 {
+		r.Label("several-items-in-one-call")
 	}
 	if panicked != nil {
 		return fmt.Errorf("VerifyArtifacts panicked (%v); reference verdict: %v", panicked, refErr)
@@ -511,6 +549,33 @@ func c03Gen(t *rapid.T) c03Case {
 		}
 		return c
 	}
+	// other items verified by the same call (their own links, rule lists that consume - MODIFY, CREATE,
+	// DELETE - and then allow everything): whatever they do must not reach the item under test
+	forceModify := false
+	if rapid.IntRange(0, 2).Draw(t, "extras") == 0 {
+		forceModify = rapid.Bool().Draw(t, "forcemodify")
+		var others []string
+		for _, n := range []string{"dst", "other", "Dst"} {
+			if _, ok := c.Links[n]; ok {
+				others = append(others, n)
+			}
+		}
+		genList := func(label string) [][]string {
+			var l [][]string
+			for _, k := range rapid.SliceOfN(rapid.SampledFrom([]string{"MODIFY", "CREATE", "DELETE", "ALLOW", "MODIFY"}), 0, 3).Draw(t, label) {
+				l = append(l, []string{k, c03GenPattern(t, paths)})
+			}
+			return append(l, []string{"ALLOW", "*"})
+		}
+		for i, n := range others {
+			e := c03Extra{Name: n, MatRules: genList(fmt.Sprintf("xm%d", i)), ProdRules: genList(fmt.Sprintf("xp%d", i))}
+			if rapid.Bool().Draw(t, fmt.Sprintf("xbefore%d", i)) {
+				c.Before = append(c.Before, e)
+			} else {
+				c.After = append(c.After, e)
+			}
+		}
+	}
 	nm := rapid.IntRange(0, 4).Draw(t, "nmat")
 	c.MatRules = [][]string{}
 	for i := 0; i < nm; i++ {
@@ -520,6 +585,18 @@ func c03Gen(t *rapid.T) c03Case {
 	c.ProdRules = [][]string{}
 	for i := 0; i < np; i++ {
 		c.ProdRules = append(c.ProdRules, c03GenRule(t, paths, names))
+	}
+	if forceModify {
+		// what the item itself created / deleted / modified decides these rules - not what another item did
+		kind := rapid.SampledFrom([]string{"MODIFY", "CREATE", "DELETE"}).Draw(t, "fmkind")
+		closing := []string{"DISALLOW", "*"}
+		if rapid.Bool().Draw(t, "fmrequire") {
+			closing = []string{"REQUIRE", rapid.SampledFrom(paths).Draw(t, "fmreq")}
+		}
+		c.ProdRules = [][]string{{kind, "*"}, closing}
+		if kind == "DELETE" {
+			c.MatRules, c.ProdRules = c.ProdRules, [][]string{{"ALLOW", "*"}}
+		}
 	}
 	return c
 }
@@ -538,7 +615,7 @@ func TestC03(t *testing.T) {
 	hx.Assume("reference interpreter written from the in-toto specification's rule algorithm; artifact names, patterns and prefixes are path-clean (the library cleans them as paths, the property defines no normalisation)")
 	ck := hx.Check[c03Case]{
 		Property: "C03", Part: "programs",
-		Rule:  "rapid-generated rule programs (all 7 types, 4 MATCH forms, keyword case variants, malformed rules) over nested artifact paths with same-named artifacts inside and outside prefixes, 1-2 hash algorithms, present/absent destination links, steps and inspections, both wrappers; names differing only in letter case and names continuing a prefix without a directory boundary; one third of the programs have the usual layout shape (MATCH against a destination holding the item's artifacts moved between prefixes, then a closing DISALLOW/REQUIRE); non-trivial = removing one non-ALLOW rule changes the reference verdict; distinct by case JSON",
+		Rule:  "rapid-generated rule programs (all 7 types, 4 MATCH forms, keyword case variants, malformed rules) over nested artifact paths with same-named artifacts inside and outside prefixes, 1-2 hash algorithms, present/absent destination links, steps and inspections, both wrappers; names differing only in letter case and names continuing a prefix without a directory boundary; one third of the cases verify several items (own links, consuming rule lists) in the same call; one third of the programs have the usual layout shape (MATCH against a destination holding the item's artifacts moved between prefixes, then a closing DISALLOW/REQUIRE); non-trivial = removing one non-ALLOW rule changes the reference verdict; distinct by case JSON",
 		Cases: hx.Pick(6000, 3000000),
 		Gen:   c03Gen, Run: c03Run,
 	}
